@@ -18,6 +18,7 @@ import (
 	_ "verifharness/internal/c15"
 	_ "verifharness/internal/c16"
 	_ "verifharness/internal/c17"
+	_ "verifharness/internal/c18"
 	_ "verifharness/internal/c19"
 	_ "verifharness/internal/c20"
 )
